@@ -533,6 +533,7 @@ package exec
 // ---------- exec/context.go ----------
 
 //@ func exprContext.Result(c) (r)
+//@   pure
 //@   property C11 C13 C15
 //@   requires c != nil
 //@   ensures r == c.result
@@ -1980,3 +1981,102 @@ package exec
 //@     invariant 0 - 1 <= #k && #k < len(from) || (len(from) == 0 && #k == 0 - 1)
 //@     invariant 0 - 1 <= index && index <= #k
 //@     decreases len(from) - #k
+
+// ---------- node functions (exec/function.go): XPath 1.0 section 4.1 / 4.3 ----------
+
+//@ extern fmt.Sprintf(format, a) (r)
+//@   pure
+//@   uses namefn
+//@   ensures format == "{%s}%s" && len(a) == 2 ==> r == bracedName(unboxStr(a[0]), unboxStr(a[1]))
+
+//@ func getName(nodeSet, ok, nameType) (r, err)
+//@   property C12 C13 C15
+//@   uses namefn nodeset
+//@   requires (ok ==> nodes(nodeSet)) && 0 <= nameType && nameType <= 2
+//@   ensures (err != nil) == !ok                                               @error-iff-not-nodeset
+//@   ensures ok && nameType == 0 ==> r == VStr(localOfSeq(seqOf(nodeSet)))      @local-part-of-first-in-document-order
+//@   ensures ok && nameType == 1 ==> r == VStr(uriOfSeq(seqOf(nodeSet)))        @namespace-uri-of-first-in-document-order
+//@   ensures ok && nameType == 2 ==> r == VStr(nameOfSeq(seqOf(nodeSet)))       @expanded-name-of-first-in-document-order
+//@   loop 0
+//@     invariant 0 - 1 <= #k && #k < len(nodeSet) - 1 || (len(nodeSet) == 1 && #k == 0 - 1)
+//@     invariant firstNode != nil && exists j Int :: 0 <= j && j <= #k + 1 && nodeSet[j] == firstNode
+//@     invariant forall j Int :: 0 <= j && j <= #k + 1 ==> pos(firstNode) <= pos(nodeSet[j])
+//@     decreases len(nodeSet) - #k
+
+//@ macro CTXSET = context != nil && context.result != nil && (isVSet(context.result) ==> nodes(vset(context.result))) && wf(context.result)
+
+//@ func localName0(context, args) (r, err)
+//@   property C12 C13 C15
+//@   uses namefn nodeset
+//@   requires $CTXSET$
+//@   ensures (err != nil) == !isVSet(context.result)
+//@   ensures err == nil ==> r == VStr(localOfSeq(seqOf(vset(context.result))))
+
+//@ func localName1(context, args) (r, err)
+//@   property C12 C13 C15
+//@   uses namefn nodeset
+//@   requires len(args) == 1 && args[0] != nil && (isVSet(args[0]) ==> nodes(vset(args[0])))
+//@   ensures (err != nil) == !isVSet(args[0])
+//@   ensures err == nil ==> r == VStr(localOfSeq(seqOf(vset(args[0]))))
+
+//@ func namespaceUri0(context, args) (r, err)
+//@   property C12 C13 C15
+//@   uses namefn nodeset
+//@   requires $CTXSET$
+//@   ensures (err != nil) == !isVSet(context.result)
+//@   ensures err == nil ==> r == VStr(uriOfSeq(seqOf(vset(context.result))))
+
+//@ func namespaceUri1(context, args) (r, err)
+//@   property C12 C13 C15
+//@   uses namefn nodeset
+//@   requires len(args) == 1 && args[0] != nil && (isVSet(args[0]) ==> nodes(vset(args[0])))
+//@   ensures (err != nil) == !isVSet(args[0])
+//@   ensures err == nil ==> r == VStr(uriOfSeq(seqOf(vset(args[0]))))
+
+//@ func name0(context, args) (r, err)
+//@   property C12 C13 C15
+//@   uses namefn nodeset
+//@   requires $CTXSET$
+//@   ensures (err != nil) == !isVSet(context.result)
+//@   ensures err == nil ==> r == VStr(nameOfSeq(seqOf(vset(context.result))))
+
+//@ func name1(context, args) (r, err)
+//@   property C12 C13 C15
+//@   uses namefn nodeset
+//@   requires len(args) == 1 && args[0] != nil && (isVSet(args[0]) ==> nodes(vset(args[0])))
+//@   ensures (err != nil) == !isVSet(args[0])
+//@   ensures err == nil ==> r == VStr(nameOfSeq(seqOf(vset(args[0]))))
+
+//@ func asciiLower(c) (r)
+//@   pure
+//@   property C12 C15
+//@   uses namefn
+//@   requires 0 <= c && c <= 255
+//@   ensures r == asciiLow(c)
+
+//@ func checkLang(srcStr, targStr) (r)
+//@   pure
+//@   property C12 C13 C15
+//@   uses namefn
+//@   ensures r == langMatch(srcStr, targStr)                                   @equal-or-prefix-before-hyphen-ignoring-ascii-case
+//@   loop 0
+//@     invariant 0 <= i && i <= len(srcStr) && len(srcStr) <= len(targStr)
+//@     invariant forall j Int :: 0 <= j && j < i ==> asciiLow(sbyte(srcStr, j)) == asciiLow(sbyte(targStr, j))
+//@     decreases len(srcStr) - i
+
+//@ func lang(context, args) (r, err)
+//@   property C12 C13 C15
+//@   uses namefn nodeset
+//@   requires okargs(args) && $CTXSET$
+//@   requires isVSet(context.result) ==> len(vset(context.result)) == 1
+//@   ensures (err != nil) == (len(args) != 1 || !isVSet(context.result))
+//@   ensures err == nil ==> r == VBool(nlHas(langStart(vset(context.result)[0]), "http://www.w3.org/XML/1998/namespace", "lang") && langMatch(toStr(args[0]), nlVal(langStart(vset(context.result)[0]), "http://www.w3.org/XML/1998/namespace", "lang")))   @nearest-xml-lang
+//@   loop 0
+//@     invariant 0 - 1 <= #k && #k < len(nodeSet) || (len(nodeSet) == 0 && #k == 0 - 1)
+//@     invariant #k == 0 ==> !nlHas(langStart(nodeSet[0]), "http://www.w3.org/XML/1998/namespace", "lang")
+//@     decreases len(nodeSet) - #k
+//@   loop 1
+//@     invariant n != nil
+//@     invariant nlHas(n, "http://www.w3.org/XML/1998/namespace", "lang") == nlHas(langStart(nodeSet[0]), "http://www.w3.org/XML/1998/namespace", "lang")
+//@     invariant nlVal(n, "http://www.w3.org/XML/1998/namespace", "lang") == nlVal(langStart(nodeSet[0]), "http://www.w3.org/XML/1998/namespace", "lang")
+//@     decreases pos(n)
